@@ -229,7 +229,8 @@ def valid_script(draw, table=None, hostile=True, maxdepth=3, maxcmds=4, mincmds=
 # ---------------------------------------------------------------------------
 # layouts
 
-SEPS = [b" ", b" ", b"\t", b"\n", b"\r\n", b" # c\n", b" #\xc3\xa9 ; { \" \r\n", b" /* c */ ", b"/* ; \n \" */", b"  ", b""]
+SEPS = [b" ", b" ", b"\t", b"\n", b"\r\n", b" # c\n", b" #\xc3\xa9 ; { \" \r\n", b" /* c */ ", b"/* ; \n \" */", b"  ", b"",
+        b"/***/", b" /** d **/ ", b"/*/*/", b" /* a*b / * */", b"/*\n*\n**/", b" #*/\n", b"/*#*/"]
 _PUNCT = set(T.PUNCT)
 
 
